@@ -209,8 +209,9 @@ def check_valid(ctx, sim, where):
         ctx.fail("valid-with-messages", f"{where}: valid verdict with messages {msgs!r}")
     if not ok and not msgs:
         ctx.fail("invalid-without-message", f"{where}: invalid verdict without any message")
+    flag = (True, 1, True)[len(msgs) % 3] if not ok else True  # any truthy value enables raising
     try:
-        r2 = sim.net.is_valid(raises=True)
+        r2 = sim.net.is_valid(raises=flag)
         raised = None
     except InvalidNetworkError as e:
         r2, raised = None, e
